@@ -198,7 +198,46 @@ def run(ctx):
         threaded(ctx, W, S, members, agents, d, p, s0, ops)
     # ---- inapplicable member injected
     inject(ctx, W, S, members, agents, d, p, s0, ops)
+    # ---- history: the problem gains an object between two calls on the same exporter (same objects dict, grown in
+    # place); quantified effects and conditions of the members range over the objects as they are NOW
+    if members and ops.chance(1, 3):
+        world_grows(ctx, W, S, members, agents, d, p, s0, exporter, ops)
     ctx.steps += len(perms)
+
+
+def world_grows(ctx, W, S, members, agents, d, p, s0, exporter, ops):
+    from pddl_plus_parser.models import PDDLObject, ActionCall
+    types = [ty for ty in W.D["types"] if ty != "agent"]
+    if not types:
+        return
+    ty = ops.pick(types)
+    new = "znew"
+    objs2 = {**W.objs, new: ty}
+    ok2, want2, _ = interp.serialisable(S, [(W.action(a), args) for a, args in members], W.D, objs2)
+    if not ok2:
+        ctx.probes["grown_world_outside_quantifier"] += 1  # e.g. a forall effect now reads an unset fluent of the object
+        return
+    p.objects[new] = PDDLObject(name=new, type=d.types[ty])
+    slots = [None] * len(agents)
+    for m in members:
+        slots[agents.index(agent_of(m, agents))] = m
+    js = joint_string(slots)
+    for site, call in (("create_multi_agent_triplet (objects grown in place)",
+                        lambda: exporter.create_multi_agent_triplet(s0, js, p.objects).next_state),
+                       ("apply_actions (objects grown in place)",
+                        lambda: apply_actions(d, s0, [ActionCall(name=a, grounded_parameters=list(args))
+                                                      for a, args in members], problem_objects=p.objects))):
+        try:
+            got = C.abs_state(call(), site, ID)
+        except Exception as e:
+            raise Violation("C16/joint-action-raised", site, f"{js}: {type(e).__name__}: {e}")
+        if not interp.state_eq(got, want2):
+            raise Violation("C16/joint-result-differs", site,
+                            f"{js} after object {new} - {ty} was added: {interp.state_diff(got, want2)}",
+                            {"forall": True})
+    ctx.probes["grown_world_checked"] += 1
+    if not interp.state_eq(want2, interp.serialisable(S, [(W.action(a), args) for a, args in members], W.D, W.objs)[1]):
+        ctx.probes["grown_world_changes_result"] += 1
 
 
 def threaded(ctx, W, S, members, agents, d, p, s0, ops):
